@@ -695,6 +695,9 @@ fn check_invocation(
             if p.contains("db.rs") {
                 if sh.model.log_torn_ever {
                     v.push(viol("C07", "log-load-panic", format!("n2 panicked while reading a log that was torn earlier: {}", p)));
+                    if sh.model.inv_since_tear.map(|n| n >= 1).unwrap_or(false) {
+                        v.push(viol("C08", "log-load-panic-after-recovery", format!("the log was loaded and appended to by a fault-free invocation after the tear, and now cannot be read: {}", p)));
+                    }
                 } else {
                     v.push(viol("C08", "log-load-panic", format!("n2 panicked while reading a log it wrote without any fault: {}", p)));
                 }
@@ -773,6 +776,17 @@ fn check_invocation(
                         }
                     }
                 }
+                // an out-of-date manifest must be regenerated first (C17)
+                if !any_fail && !bogus && !cyc_final && !injected && !spec.restat && reload_at.is_none() {
+                    for &si in &w1_p1 {
+                        let s = &p1.steps[si];
+                        if !s.phony && !started_all.contains(&s.id) && sh.model.judgeable(p1, si) {
+                            if let Some(r) = sh.model.dirty(p1, si) {
+                                v.push(viol("C17", "manifest-not-regenerated", format!("s{} (needed to bring the manifest up to date) is out of date ({}) but was not run", s.id, r)));
+                            }
+                        }
+                    }
+                }
                 // the manifest on disk was regenerated but n2 kept judging against the old text:
                 // C02 speaks about the current manifest and command lines
                 if !any_fail && !bogus && !cyc_final && !injected && !spec.restat && sh.model.disk != p2 {
@@ -836,6 +850,9 @@ fn check_invocation(
                 if err.starts_with("load .n2_db") && !sh.io_err_fired {
                     if sh.model.log_torn_ever {
                         v.push(viol("C07", "log-unloadable", format!("n2 refuses to start after a torn log write: {:?}", err)));
+                        if sh.model.inv_since_tear.map(|n| n >= 1).unwrap_or(false) {
+                            v.push(viol("C08", "log-unloadable-after-recovery", format!("the log was loaded and appended to by a fault-free invocation after the tear, and now cannot be read: {:?}", err)));
+                        }
                     } else {
                         v.push(viol("C08", "log-unloadable", format!("n2 cannot load a log it wrote without any fault: {:?}", err)));
                     }
